@@ -48,3 +48,12 @@ func VerifSetStatus(r Role, s task.Status) {
 func VerifAttach(root Role, parent *ParentAdapter) {
 	root.setParent(parent)
 }
+
+// VerifLoadableTaskRole builds a task role that has no task yet: deployment has to launch one of the given class.
+func VerifLoadableTaskRole(name string, class string, critical bool) Role {
+	r := VerifTaskRole(name, critical, nil).(*taskRole)
+	r.LoadTaskClass = class
+	r.Traits.Timeout = "10s"
+	r.status.status = task.INACTIVE
+	return r
+}
